@@ -306,6 +306,31 @@ func alterHint(tg *target, sig []byte, h *hintSpec, dist func(string, int)) {
 		}
 		prev = sop
 	}
+	// a repeated position: the last hint index of a polynomial appears twice
+	// (the following indices move up by one into the first padding octet, the
+	// switch-over points from that polynomial on grow by one): decodes - if
+	// the ordering check is lax - to the very same hint vector
+	if total < h.omega {
+		prev = 0
+		done := 0
+		for i := 0; i < h.k && done < 3; i++ {
+			sop := int(hs[h.omega+i])
+			if sop > prev {
+				c := clip(sig)
+				nh := c[h.off : h.off+h.omega+h.k]
+				copy(nh[sop+1:total+1], hs[sop:total]) // shift the tail up by one
+				nh[sop] = hs[sop-1]                    // the repeated index
+				for j := i; j < h.k; j++ {
+					nh[h.omega+j] = hs[h.omega+j] + 1
+				}
+				lib.Count("hint-duplicate")
+				dist("hint-order", 1000+i)
+				tg.expectReject("hint-order", c, "poly", i, "which", "last-index-repeated")
+				done++
+			}
+			prev = sop
+		}
+	}
 	// non-zero padding after the last used position
 	if total < h.omega {
 		for _, pos := range []int{total, h.omega - 1} {
